@@ -22,6 +22,13 @@ func gen(tier string, r *lib.Rand, emit func(string)) {
 	for _, s := range acclib.Rejections {
 		emit("load " + hex(s))
 	}
+	// name resolution order: self-reference, use before definition, redefinition using the first definition,
+	// alias cycles, and their legal look-alikes; the intended verdict travels with the case
+	acclib.NameOrderCases(func(t *ast.Chain, verdict string) {
+		emit("loadx " + hex(acclib.RenderScript(r, t, false)) + " " + verdict)
+		emit("loadx " + hex(acclib.RenderScript(r, t, true)) + " " + verdict)
+		emit("loadtree " + acclib.EncScript(t))
+	})
 	// parse histories (print histories belong to C07; the shared generator emits both kinds)
 	acclib.HistCases(tier, r, func(c string) {
 		if strings.HasPrefix(c, "parsehist") {
